@@ -937,9 +937,9 @@ def specs(ctx, rnd):
     for _ in range(1 if q else 3):
         lms.append({"name": "lm", "ys": [str(dy(rnd, -2, 2, 4)) for _ in range(rnd.choice([3, 4]))],
                     "tau": str(Fraction(rnd.choice([2, 4, 6]), 2)), "rate": str(Fraction(rnd.choice([1, 2, 4]), 2))})
-    for _ in range(16 if q else 200):
+    for _ in range(12 if q else 200):
         out.append({"kind": "cont", "spec": gen_cont(rnd, lms)})
-    for _ in range(2 if q else 14):
+    for _ in range(1 if q else 14):
         out.append({"kind": "glue", "spec": gen_glue(rnd)})
     return out
 
